@@ -420,6 +420,18 @@ def handleLine (s : St) (line : String) : St :=
         rstType := parseRst (kv rest "rst"), activeHigh := kv rest "act" == "H", hasNodes := kv rest "nodes" == "1" }
     if i.toNat! != s.cur.clocks.size then s.diff s!"clock ids not dense at {i}"
     else { s with cur := { s.cur with clocks := s.cur.clocks.push cd } }
+  | "ccfg" :: i :: rest =>
+    -- what the clock was asked to be: the reported attributes (model input above) must follow from it
+    let opt := fun (k : String) => let v := kv rest k; if v == "~" then none else some v
+    let cfg : ClockCfg :=
+      { name := opt "name", resetName := opt "rname", trig := (opt "trig").map parseTrig, phaseSync := (opt "psync").map (· == "1"),
+        rstType := (opt "rst").map parseRst, activeHigh := (opt "act").map (· == "H") }
+    let cs : ClockTree := s.cur.clocks.toList
+    let i := i.toNat!
+    let d := cs.get i
+    let e := cs.expectedDecl i cfg ((opt "mul").map parseRat)
+    (ClockTree.declMismatch e d).foldl (fun s attr =>
+      s.propfail s!"kind=clock-attribute attr={attr} clock={i} parent={repr d.parent} expected=[f={showRat e.freqOrMul} trig={repr e.trig} rst={repr e.rstType} actHigh={e.activeHigh} name={e.name} rname={e.resetName}] reported=[f={showRat d.freqOrMul} trig={repr d.trig} rst={repr d.rstType} actHigh={d.activeHigh} name={d.name} rname={d.resetName}]") s
   | "pin" :: _ :: w :: _ => { s with cur := { s.cur with pinW := s.cur.pinW ++ [w.toNat!] } }
   | "reg" :: _ :: rest =>
     let exprToks := rest.dropWhile (fun t => !t.startsWith "d=")
